@@ -12,6 +12,11 @@
 (*                  coloured input line k) followed by the same decoration (rx[i] =       *)
 (*                  ry[i]): raw-styled elements and passed-through text keep the input's  *)
 (*                  colours                                                               *)
+(*   kind "fgonly"  C15: two renderings x, y of the same input (cells <<char, fg, bg,        *)
+(*                  attrs>>) may differ in foreground colour only, and not even there on     *)
+(*                  cells whose background is in nosyn (painted with a style without         *)
+(*                  'syntax'); strict = TRUE: no difference at all (file renamed to another    *)
+(*                  name of the same kind)                                                   *)
 (*   kind "cells"   C08 moved lines: the rendition of every character of the output row   *)
 (*                  (y: <<char, fg, bg, attrs>>) equals that of the input line (x)         *)
 EXTENDS Naturals, Sequences, FiniteSets, TLC, Json, IOUtils
@@ -29,6 +34,12 @@ Judge(e) ==
   CASE e.kind = "concat" -> FirstDiff(e.x \o e.y, e.z)
     [] e.kind = "equal"  -> FirstDiff(e.x, e.y)
     [] e.kind = "cells"  -> FirstDiff(e.x, e.y)
+    [] e.kind = "fgonly" ->
+         IF Len(e.x) # Len(e.y) THEN (IF Len(e.x) < Len(e.y) THEN Len(e.x) ELSE Len(e.y)) + 1
+         ELSE LET bad == {i \in DOMAIN e.x :
+                            \/ e.x[i][1] # e.y[i][1] \/ e.x[i][3] # e.y[i][3] \/ e.x[i][4] # e.y[i][4]
+                            \/ (e.x[i][2] # e.y[i][2] /\ (e.strict \/ \E k \in DOMAIN e.nosyn : e.nosyn[k] = e.x[i][3]))}
+              IN IF bad = {} THEN 0 ELSE CHOOSE i \in bad : \A j \in bad : i <= j
     [] e.kind = "equalp" ->
          IF Len(e.x) # Len(e.y) THEN (IF Len(e.x) < Len(e.y) THEN Len(e.x) ELSE Len(e.y)) + 1
          ELSE LET bad == {i \in DOMAIN e.x : e.x[i] # e.y[i] /\
